@@ -123,3 +123,41 @@ theorem linesLoop_written_id (rb : Bool) (k : Nat) (rs : List XRule) (hc : rb = 
     simp [joinLines, String.append_assoc]
 
 end Verif.Model.FixSched
+
+namespace Verif.Model.FixSched
+
+/-- The call a rule receives for one line of a fix pass: fix-list rules see the real line number in
+fix mode; collect-list rules see the report context, whose `line_number` is still its initial 0. -/
+def lineCall (k n : Nat) (text : String) (r : XRule) : Log :=
+  if r.hasLine then
+    (match bindOf k r with
+     | none => []
+     | some .fix => [(r.id, Call.line n text true)]
+     | some .report => [(r.id, Call.line 0 text false)])
+  else []
+
+theorem lineStep_log (k n : Nat) (st : LineSt) (r : XRule) :
+    (lineStep k n st r).log = st.log ++ lineCall k n st.line r := by
+  unfold lineStep lineCall
+  by_cases h : r.hasLine
+  · simp only [h, Bool.not_true, Bool.false_eq_true, if_false, if_true]
+    cases hb : bindOf k r with
+    | none => simp
+    | some b =>
+      cases b with
+      | fix => simp only; split <;> rfl
+      | report => simp only; split <;> rfl
+  · simp [h]
+
+/-- Each rule is called at most once per line, in plug-in order: the log of one line is the
+concatenation of the per-rule calls (with the text as rewritten so far). -/
+theorem foldl_lineStep_log (k n : Nat) : ∀ (rs : List XRule) (st : LineSt),
+    ∃ texts : List String, texts.length = rs.length ∧
+      (rs.foldl (lineStep k n) st).log = st.log ++ (List.zipWith (fun t r => lineCall k n t r) texts rs).flatten
+  | [], st => ⟨[], rfl, by simp⟩
+  | r :: rs, st => by
+    obtain ⟨ts, hl, he⟩ := foldl_lineStep_log k n rs (lineStep k n st r)
+    refine ⟨st.line :: ts, by simp [hl], ?_⟩
+    simp only [List.foldl_cons, he, lineStep_log, List.zipWith_cons_cons, List.flatten_cons, List.append_assoc]
+
+end Verif.Model.FixSched
